@@ -45,6 +45,7 @@ def run(ctx):
     ctx.rule("R10.1", "ESCAPES: as_escaped_char and get_escaped_char are inverse bijections over all characters in both quoting modes; the mode's quote and the backslash are escaped")
     ctx.rule("R10.2", "TAG-COVER: the printer handles every value tag plus 'a' and '-', and every printed tag can be produced by the scanner")
     ctx.rule("R10.3", "KEYWORDS: words and prefixes emitted by the printer are recognised by scanner and checker under the same tag; true/false scan to the right truth value")
+    ctx.rule("R10.5", "TIME-FORMAT: the strftime format the printer chooses for a time tag, evaluated over all zero/non-zero combinations of hour, minute, second and fraction, contains a conversion for every non-zero field (nothing is silently dropped) ")
     ctx.rule("R10.4", "TAG-FIELD: inside the case of tag X only the union member of X is accessed (printer, scanner's numeric switch, arg-val-math.c)")
     pr = u.function("as_escaped_char")
     sc = u.function("get_escaped_char")
@@ -242,3 +243,40 @@ def run(ctx):
                     nsw += 1
                     tag_field(um, fn, sw, "%s#%d" % (q, k))
     ctx.require(nsw >= 5, "R10.4: only %d tag switches found in arg-val-math.c" % nsw)
+
+    # ---- R10.5
+    import itertools
+    tstm = ptab.get(ord("t"), [])
+    fdecl = [x for s_ in tstm for x in A.walk(s_) if x.get("kind") == "VarDecl" and A.kids(x) and A.strip_casts(A.kids(x)[-1]).get("kind") == "ConditionalOperator" and
+             any(A.string_literal(y) and "%Y" in (A.string_literal(y) or "") for y in A.walk(x) if y.get("kind") == "StringLiteral")]
+    ctx.require(len(fdecl) == 1, "R10.5: the strftime format selection was not found in the printer's case 't'")
+    expr = A.kids(fdecl[0])[-1]
+    bad = []
+    ncase = 0
+    for hour, minute, sec, frac in itertools.product((0, 7), repeat=4):
+        def hook(n, ev, hour=hour, minute=minute, sec=sec, frac=frac):
+            k = n.get("kind")
+            if k == "StringLiteral":
+                return A.string_literal(n)
+            if k == "MemberExpr" and n.get("name") in ("tm_hour", "tm_min", "tm_sec"):
+                return {"tm_hour": hour, "tm_min": minute, "tm_sec": sec}[n.get("name")]
+            if k == "DeclRefExpr" and (n.get("referencedDecl") or {}).get("name") == "secfracs":
+                return frac
+            if k == "ImplicitCastExpr" and n.get("castKind") == "ArrayToPointerDecay":
+                return ev.ev(A.kids(n)[0])
+            return NotImplemented
+        try:
+            f = FD.Eval(node_hook=hook).ev(expr)
+        except FD.Unknown as e:
+            raise AnalysisBroken("R10.5: format selection not evaluable: %s" % e)
+        ncase += 1
+        need = []
+        if hour or minute or sec or frac:
+            need += ["%H", "%M"]
+        if sec or frac:
+            need += ["%S"]
+        miss = [d for d in need if not isinstance(f, str) or d not in f]
+        if miss:
+            bad.append({"hour": hour, "min": minute, "sec": sec, "fraction": frac, "format": f, "missing": miss})
+    ctx.ob("R10.5", "strftime format selection", not bad, site=A.where(fdecl[0]), detail={"cases": ncase, "dropped": bad[:6]},
+           what="the printer drops non-zero time fields: %s" % bad[:2])
